@@ -1,6 +1,6 @@
-"""PROTOTYPE C06: SAST fixes land exactly on reported findings (all subsets of replicated sites) and carry them."""
+"""C06: SAST fixes land exactly on reported findings (all subsets of replicated sites) and carry them."""
 import ast, base64, collections, itertools, json, os, random, sys
-from vf import corpus, gen
+from vf import corpus, gen, sites as ST
 from vf.runner import run_check, Violation
 b64 = lambda b: base64.b64encode(b.encode() if isinstance(b, str) else b).decode(); unb = base64.b64decode
 FLAG = {"sonar": "--sonar-issues-json", "semgrep": "--sarif", "defectdojo": "--defectdojo-findings-json"}
@@ -28,18 +28,19 @@ def build(rec, indents):
     body_lines = body.splitlines(keepends=True)
     fs = [f for f in findings_of(rec) if f["sl"] > nhead]
     if not fs: return None
-    out = head + "VF_PRELUDE = 0\n"; line = nhead + 1; sites = []
+    out = head + "VF_PRELUDE = 0\n"; line = nhead + 1; sites = []; ranges = []
     for i, ind in enumerate(indents):
         pad = "    " * ind
-        out += f"# VF-SITE-{i}-BEGIN\n"; line += 1
+        out += ST.BEGIN(i); line += 1
         if ind:
             for d in range(ind): out += "    " * d + f"if SITE_{i}_{d}:\n"; line += 1
         delta = line - nhead
         out += "".join((pad + l if l.strip() else l) for l in body_lines)
         sites.append([dict(f, sl=f["sl"] + delta, el=f["el"] + delta, sc=None if f["sc"] is None else f["sc"] + 4 * ind, ec=None if f["ec"] is None else f["ec"] + 4 * ind, site=i) for f in fs])
+        ranges.append((line + 1, line + len(body_lines)))
         line += len(body_lines)
-        out += f"# VF-SITE-{i}-END\n"; line += 1
-    return out, sites
+        out += ST.END(i); line += 1
+    return out, sites, ranges
 
 def doc(tool, fname, fs, decoys):
     if tool == "sonar":
@@ -67,7 +68,7 @@ def plan(tier, seed):
             indents = [0, 1, 2] if draw == 0 else [rnd.randint(0, 3) for _ in range(k)]
             b = build(r, indents)
             if b is None: continue
-            src, sites = b
+            src, sites, ranges = b
             try: ast.parse(src)
             except SyntaxError: continue
             seen[r["codemod"]] += 1
@@ -82,13 +83,16 @@ def plan(tier, seed):
                     if r["tool"] == "sonar": variants.append(("decoy-closed", [dict(f, dstatus="CLOSED") for f in sites[other]]))
                 if tier == "quick": variants = variants[:1] + (rnd.sample(variants[1:], 1) if len(variants) > 1 else [])
                 for vname, decoys in variants:
-                    jobs.append({"id": f"{r['codemod']}|{draw}|{S}|{vname}", "cid": r["codemod"], "S": S, "k": k, "variant": vname, "tool": r["tool"], "src": src, "files": {"code.py": b64(src), "other.py": b64("x = 1\n")},
+                    reported = {}
+                    for jx, f in enumerate(fs):   # identity as the report will show it: DefectDojo's own id, else the rule id (Sonar keys / SARIF have no identity in CodeTF findings)
+                        reported.setdefault(str(f["site"]), []).append({"rule": f["rule"], "id": str(100 + 10 * f["site"] + jx) if r["tool"] == "defectdojo" else f["rule"]})
+                    jobs.append({"reported": reported, "id": f"{r['codemod']}|{draw}|{S}|{vname}", "cid": r["codemod"], "S": S, "k": k, "ranges": ranges, "variant": vname, "tool": r["tool"], "src": src, "files": {"code.py": b64(src), "other.py": b64("x = 1\n")},
                                  "result_files": {"r.json": doc(r["tool"], "code.py", fs, decoys)}, "argv": ["{proj}", "--output", "{out}", FLAG[r["tool"]], "{res}/r.json", "--codemod-include", r["codemod"]],
                                  "monitors": {"snap": False}, "n_site_findings": {i: len(sites[i]) for i in range(k)}})
     return jobs
 
 def site_text(text, i):
-    a = text.find(f"# VF-SITE-{i}-BEGIN\n"); b = text.find(f"# VF-SITE-{i}-END\n")
+    a = text.find(ST.BEGIN(i)); b = text.find(ST.END(i))
     return text[a:b] if a >= 0 and b >= 0 else None
 
 def judge(job, res):
@@ -97,7 +101,7 @@ def judge(job, res):
     if run["rc"] != 0 or run["exc"]:
         v.append(Violation("C06", f"run-failed/{cm}", f"rc={run['rc']} exc={run['exc']}", {"argv": job["argv"], "log": run["log"][-600:]})); return v, st, nt
     after = unb(run["tree"]["code.py"][2:]).decode("utf-8", "replace")
-    hit = {i for i in range(job["k"]) if site_text(after, i) != site_text(job["src"], i)}
+    hit = ST.sites_changed(job["src"], after, job["k"])
     S = set(job["S"])
     if 0 < len(S) < job["k"] or job["variant"] != "plain": nt.append(job["id"])
     st["fired:" + cm] += 1
@@ -108,11 +112,25 @@ def judge(job, res):
     if S - hit:
         v.append(Violation("C06", f"reported-not-fixed/{cm}", f"sites {sorted(S - hit)} reported but not rewritten", w))
     if other := (run["tree"].get("other.py") != "F:" + b64("x = 1\n")): v.append(Violation("C06", f"foreign-file-touched/{cm}", "other.py changed", w))
-    # findings carried
+    # findings carried: every rewritten reported site has a change entry (on one of its lines) carrying a finding reported for that site, and no entry of the site carries anything else
     if hit and hit == S:
-        changes = [c for r in run["report"]["results"] for cs in r["changeset"] for c in cs["changes"]]
-        nf = sum(len(c.get("findings") or []) for c in changes)
-        if nf == 0: v.append(Violation("C06", f"finding-not-carried/{cm}", "no change entry carries a finding", w))
+        lines = job["src"].splitlines(keepends=True)
+        extent = {}
+        for i in range(job["k"]):
+            try: extent[i] = (lines.index(ST.BEGIN(i)) + 1, lines.index(ST.END(i)) + 1)
+            except ValueError: pass
+        changes = [c for r in run["report"]["results"] for cs in r["changeset"] if cs["path"] == "code.py" for c in cs["changes"]]
+        for i in sorted(hit):
+            a, b = extent.get(i, (0, -1))
+            mine = [c for c in changes if a <= c["lineNumber"] <= b]
+            carried = [str(f.get("id")) for c in mine for f in (c.get("findings") or [])]
+            want = {x["id"] for x in job["reported"].get(str(i), [])}
+            st["sites_checked_for_findings"] += 1
+            if not carried:
+                v.append(Violation("C06", f"finding-not-carried/{cm}", f"site {i} was rewritten but no change entry on its lines {a}-{b} carries a finding (entries on lines {sorted(c['lineNumber'] for c in changes)})", w)); break
+            foreign = [x for x in carried if x not in want]
+            if foreign:
+                v.append(Violation("C06", f"foreign-finding-carried/{cm}", f"site {i}: change entries carry {foreign}, reported for this site: {sorted(want)}", w)); break
         tool = [r.get("detectionTool") for r in run["report"]["results"]][0]
         if not tool: v.append(Violation("C06", f"no-detection-tool/{cm}", "result lacks detectionTool", w))
     return v, st, nt
